@@ -11,6 +11,7 @@ from guppylang.std.builtins import array, owned, comptime, nat, py, result, pani
 from guppylang.std.quantum import qubit, h, x, cx, rz, measure, discard, reset
 from guppylang.std.angles import angle
 from guppylang.std.option import Option, nothing, some
+from collections.abc import Callable
 '''
 
 TEMPLATES: list[dict] = []
@@ -584,7 +585,6 @@ def main(x: int, b: bool) -> int:
 ''', helpers='''
 import guppylang
 guppylang.enable_experimental_features()
-from collections.abc import Callable
 
 
 @guppy
